@@ -5,10 +5,23 @@
 #include <libast_internal.h>
 #include <errno.h>
 #include <ctype.h>
-#include "env.h"
+#ifdef VERIF_NATIVE
+# include "vnative.h"
+#else
+# include "env.h"
+#endif
+
+/* named nondeterministic input: cbmc picks it, the native replay reads the witness value W_<name> */
+#ifdef VERIF_NATIVE
+# define VND(kind, name) vn_get(#name, 0)
+#else
+# define VND(kind, name) nondet_##kind()
+#endif
 
 /* Vacuity canary: must be reachable, i.e. must FAIL.  The driver rejects a
  * unit whose canary is proved (contradictory precondition, or the enforced
  * function never returns). */
+#ifndef VERIF_NATIVE
 #define VERIF_CANARY() __CPROVER_assert(0, "VERIF_CANARY reachable (expected to fail)")
+#endif
 #endif
